@@ -160,9 +160,15 @@ func vfRunOnce(t *testing.T, prop, tier, variant string, tape *vfTape, cryptoSee
 	tr := http.DefaultTransport.(*http.Transport)
 	origDial, origKA, origProxy := tr.DialContext, tr.DisableKeepAlives, tr.Proxy
 	defer func() { tr.DialContext, tr.DisableKeepAlives, tr.Proxy = origDial, origKA, origProxy }()
+	var wref *vfWorld
 	defer func() {
 		if p := recover(); p != nil {
 			// e.g. the end-of-bubble deadlock panic
+			if wref != nil && wref.viol != nil {
+				// a violation was already established (e.g. a deadlock among the simulated tasks themselves)
+				res.Verdict, res.Viol, res.Hash, res.Trace, res.Tape, res.Sample = "violation", wref.viol, wref.hash(), wref.log, tape.Draws(), wref.sample
+				return
+			}
 			res.Verdict = "error"
 			res.Err = fmt.Sprintf("bubble panic: %v", p)
 			if os.Getenv("VERIF_DEBUG") != "" {
@@ -174,6 +180,7 @@ func vfRunOnce(t *testing.T, prop, tier, variant string, tape *vfTape, cryptoSee
 	}()
 	synctest.Test(t, func(t *testing.T) {
 		w := vfNewWorld(t, prop, tier, tape)
+		wref = w
 		w.known = known
 		w.variant = variant
 		w.cryptoSeed = cryptoSeed
@@ -268,6 +275,28 @@ func TestVerifSim(t *testing.T) {
 		Probes: map[string]int{}, Faults: map[string]int{}, KnownHits: map[string]int{}, KnownSample: map[string]string{}}
 	hashes := map[string]bool{}
 	t0 := time.Now()
+	finished := false
+	finish := func() {
+		if finished {
+			return
+		}
+		finished = true
+		for h := range hashes {
+			sum.Hashes = append(sum.Hashes, h)
+		}
+		sort.Strings(sum.Hashes)
+		sum.WallS = time.Since(t0).Seconds()
+		if *vfFlagOut != "" {
+			if err := vfWriteJSON(*vfFlagOut, sum); err != nil {
+				fmt.Fprintf(os.Stderr, "verif: write summary: %v\n", err)
+			}
+		} else {
+			b, _ := json.Marshal(sum)
+			fmt.Println(string(b))
+		}
+	}
+	// (under the race detector a report makes the testing package end the test through FailNow)
+	defer finish()
 	var hashOut *os.File
 	if *vfFlagHashes != "" {
 		f, err := os.Create(*vfFlagHashes)
@@ -335,19 +364,7 @@ func TestVerifSim(t *testing.T) {
 			break
 		}
 	}
-	for h := range hashes {
-		sum.Hashes = append(sum.Hashes, h)
-	}
-	sort.Strings(sum.Hashes)
-	sum.WallS = time.Since(t0).Seconds()
-	if *vfFlagOut != "" {
-		if err := vfWriteJSON(*vfFlagOut, sum); err != nil {
-			t.Fatalf("write summary: %v", err)
-		}
-	} else {
-		b, _ := json.Marshal(sum)
-		fmt.Println(string(b))
-	}
+	finish()
 	if sum.Error != "" {
 		fmt.Fprintf(os.Stderr, "verif: HARNESS ERROR %s\n", sum.Error)
 		t.Fatalf("harness error")
